@@ -303,10 +303,16 @@ fn run_case(st: &mut Stats, text: &[u8], entries: &[Entry], inc_dir: Option<&str
             Ok(EO::Ok) => {
                 st.outcome(&format!("{}:ok", name));
                 st.nontrivial(&(name, text));
+                if text.len() > 12 && text.len() < 120 {
+                    st.sample(json!({"entry": name, "input": String::from_utf8_lossy(text), "outcome": "ok"}));
+                }
             }
             Ok(EO::Err(l, m)) => {
                 st.outcome(&format!("{}:error", name));
                 st.nontrivial(&(name, "err", &m));
+                if text.len() > 12 && text.len() < 120 && name.starts_with("compile") {
+                    st.sample(json!({"entry": name, "input": String::from_utf8_lossy(text), "outcome": format!("error at {}: {}", l.as_ref().map(|l| l.to_string()).unwrap_or_default(), m)}));
+                }
                 if let (true, Some(l)) = (located && name.starts_with("compile") || *name == "dependencies" || *name == "usecheck" || *name == "preprocess", l) {
                     match location_ok(text, &l, inc_dir) {
                         Ok(()) => st.count("located-errors-in-bounds", 1),
